@@ -342,7 +342,7 @@ func checkGenerate(c *Ctx, m *gensignModel, h *types.Named, gen *ssa.Function) {
 	for _, call := range callsIn(gen) {
 		// the repository constructor of the agent key is a named primitive of this rule
 		if cv, ok := call.(*ssa.Call); ok {
-			if callee := w.helperOf(cv); callee != nil && callee.Signature.Results().Len() == 2 {
+			if callee := w.helperOf(cv); callee != nil && callee.Signature.Results().Len() == 2 && strings.Contains(callee.Signature.Results().At(0).Type().String(), "AgentKey") {
 				w.Opaque(callee)
 			}
 		}
@@ -357,7 +357,7 @@ func checkGenerate(c *Ctx, m *gensignModel, h *types.Named, gen *ssa.Function) {
 					continue
 				}
 				callee := cv.Call.StaticCallee()
-				if callee != nil && w.InRepo(callee) && callee.Signature.Results().Len() == 2 && strings.Contains(ex, "call<"+fnName(callee)+">(p0)#0") {
+				if callee != nil && w.InRepo(callee) && callee.Signature.Results().Len() == 2 && strings.Contains(callee.Signature.Results().At(0).Type().String(), "AgentKey") && strings.Contains(ex, "call<"+fnName(callee)+">(p0)#0") {
 					agentKeyCall = cv
 					okPK = true
 				}
